@@ -133,4 +133,11 @@ CHECKS = {
         "design_ref": "DESIGN.md 2/C04",
         "note": "The fixture was reconstructed once from the baseline package (upstream JSON unreachable offline) and accepted because generator(fixture)==package held; it pins what the baseline encodes. Docstrings/formatting not compared.",
     },
+    "C16": {
+        "level": "exploration",
+        "technique": "grammar-based property testing over generated message definitions (programs), pushed through the real generator; independent definition reader + definition-driven reference encoder as oracle",
+        "text": "Hypothesis generates batches of message definitions from a grammar of the upstream JSON format; the real generator main()s run on them in a scratch tree; a child process imports every generated module and compares, per declared version, the class set, field names/order, annotations, kafka_type, tags, explicit and effective tagged defaults, class vars, api key and header with kv.defspec (an independent reading of the definition, itself validated against all 5094 shipped fields), checks entity_writer bytes on the generated classes against a reference encoding driven by the definition, and the generated index against the generated modules.",
+        "design_ref": "DESIGN.md 2/C16",
+        "note": "Grammar restricted to constructs of the 3.9.0 definitions and their recombinations (exclusions listed in DESIGN.md); kio's representation conventions are taken as expected. Open known finding K-C16-nullable-primitive-arrays is excluded from the main search and probed separately.",
+    },
 }
